@@ -903,13 +903,11 @@ theorem outer_spec (fl : LFlags) (nr : Nat) (hnr : 1 ≤ nr) (hkg : kg = fl.keep
             | stopped k => simp only []; rw [G_append]; exact hok2
             | exc => simp only []; rw [G_append]; exact hok2
 
-/-- **the scheduling loop of any length keeps the scan obligation**: whatever the task list, its dependency structure, the
-    flags, the number (>= 1) of wait cycles and the answers of the environment, when `execution_loop` returns every task of
-    its list has been seen complete, found locked by someone else, failed, or - since the worker last finished a task -
-    seen waiting for a dependency. -/
-theorem loop_scans_all (fl : LFlags) (deps : List (List Task)) (nr : Nat) (hnr : 1 ≤ nr) (answers : List Nat) :
-    lscanOK ⟨⟨fl.keepGoing, fl.keepFailed⟩, deps, loopTrace fl deps nr answers⟩ = true := by
-  unfold lscanOK loopTrace
+/-- the obligation holds at the return of a run of the loop program **whatever the ghost state it starts from** (e.g. after earlier passes over a
+    shorter task list, before a barrier opened): stale flags do not help, every task is accounted for afresh -/
+theorem loop_scans_all_from (fl : LFlags) (deps : List (List Task)) (nr : Nat) (hnr : 1 ≤ nr) (answers : List Nat) (s : Scan × Bool) (hs : s.2 = true) :
+    (G fl.keepGoing deps s (loopTrace fl deps nr answers)).2 = true := by
+  unfold loopTrace
   simp only []
   obtain ⟨k1, k2⟩ := skipLoadable_spec (List.range deps.length) (Env.init answers)
   cases hsk : skipLoadable (Env.init answers) (List.range deps.length) with
@@ -918,8 +916,8 @@ theorem loop_scans_all (fl : LFlags) (deps : List (List Task)) (nr : Nat) (hnr :
     rw [hsk] at k1 k2
     simp only [] at k1 k2 ⊢
     have := outer_spec fl.keepGoing deps (fun t => deps.getD t []) fl nr hnr rfl rfl (ts.length + 1) none e false ts
-      (G fl.keepGoing deps (Scan.init, true) tr)
-      (by rw [ok_noRet _ _ tr (noRet_of_onlyCL k1.cl)])
+      (G fl.keepGoing deps s tr)
+      (by rw [ok_noRet _ _ tr (noRet_of_onlyCL k1.cl)]; exact hs)
       (einv_of_scanOK k1 (by intro d hd; simp [Env.init] at hd))
       (by
         intro x hx hnin
@@ -928,6 +926,15 @@ theorem loop_scans_all (fl : LFlags) (deps : List (List Task)) (nr : Nat) (hnr :
         · exact done_of_marks _ _ tr x _ h (marks_canLoad _ _ x) _)
     rw [← G_append] at this
     exact this
+
+/-- **the scheduling loop of any length keeps the scan obligation**: whatever the task list, its dependency structure, the
+    flags, the number (>= 1) of wait cycles and the answers of the environment, when `execution_loop` returns every task of
+    its list has been seen complete, found locked by someone else, failed, or - since the worker last finished a task -
+    seen waiting for a dependency. -/
+theorem loop_scans_all (fl : LFlags) (deps : List (List Task)) (nr : Nat) (hnr : 1 ≤ nr) (answers : List Nat) :
+    lscanOK ⟨⟨fl.keepGoing, fl.keepFailed⟩, deps, loopTrace fl deps nr answers⟩ = true := by
+  unfold lscanOK
+  exact loop_scans_all_from fl deps nr hnr answers (Scan.init, true) rfl
 
 /-! ### the fuel of `outer` never runs out: every pass that does not end the loop shortens the list -/
 
